@@ -17,7 +17,7 @@ ASSUMPTIONS = [
     "fp64 kernels: the allele count is an arbitrary integer in [0, ploidy*n]; integer sums are exact (true for int64 accumulators at these sizes)",
 ]
 STUBS = []
-BOUNDS = {"quick": dict(real_mode="taxa<=3, markers<=2, ploidy 2", fp64="n in [1,64], ploidy 2: afreq/afixed/apoly/maf arithmetic as written in the source"),
+BOUNDS = {"quick": dict(real_mode="taxa<=3, markers<=2, ploidy 2 (phased matrices of 1 and 4 phases through the genotyping protocol)", accumulators="result dtype of acount/gtcount >= 32 bit", fp64="n in [1,64], ploidy 2: afreq/afixed/apoly/maf arithmetic as written in the source"),
           "thorough": dict(real_mode="taxa<=4, markers<=2", fp64="n in [1,256], ploidy in {1,2,3,4}")}
 OUTSIDE = ["requested output dtypes other than the default (dtype.type(...) conversions run in compiled code)",
            "populations larger than the fp64 bound", "more taxa/markers than the real-mode bounds"]
